@@ -48,9 +48,13 @@ def _compose_forms(a_src, b_src, b_ops=None):
         forms["rshift"] = f"({a_src}) >> ({b_src})"
         forms["eval_map"] = f"({b_src}).eval({{'b_in': ({a_src})}})"
     else:
-        descr = {"e": progs.E, "f": progs.F, "k": progs.K}
+        descr = {"e": progs.E, "f": progs.F, "k": progs.K, "s": progs.S}
         mp = ", ".join([f"'b_in': ({a_src})"] + [f"'{t}': {descr[t]}" for t in others if t in descr])
         forms["eval_map"] = f"({b_src}).eval({{{mp}}})"
+        tabs = b_ops.get_tables()
+        if sum(1 for t in tabs.values() if set(t.column_names) == set(tabs["b_in"].column_names)) == 1:
+            # several tables in b, but only one of them has a's columns: a >> b says which table a feeds
+            forms["rshift"] = f"({a_src}) >> ({b_src})"
     return forms
 
 
